@@ -3715,6 +3715,59 @@ theorem failLookup_spec {H : Hashes} (hH : HashOk H) (now k : Nat) {c : Cache (N
   rw [seg_get_eq hH inv k]
   cases sabs H c.data k <;> rfl
 
+
+/-- **`ResetMatching` / `PurgeQuestion`**: a reset of each listed key in turn
+removes exactly the listed keys, keeps everything else, and counts the states
+that were stored. -/
+theorem failResetAll_spec {H : Hashes} (hH : HashOk H) : ∀ (ks : List Nat) {c : Cache (Nat × Nat)},
+    SegInv H c.data → ks.Nodup →
+    SegInv H (c.failResetAll H ks).1.data ∧
+    (∀ k', sabs H (c.failResetAll H ks).1.data k' = if k' ∈ ks then none else sabs H c.data k') ∧
+    (c.failResetAll H ks).2 = (ks.filter (fun k => (sabs H c.data k).isSome)).length := by
+  intro ks
+  induction ks with
+  | nil => intro c inv _; exact ⟨inv, fun k' => by simp [Cache.failResetAll], rfl⟩
+  | cons k ks ih =>
+    intro c inv hnd
+    rw [List.nodup_cons] at hnd
+    obtain ⟨r1, r2, r3⟩ := failReset_spec hH k 3 inv
+    obtain ⟨i1, i2, i3⟩ := ih r1 hnd.2
+    unfold Cache.failResetAll
+    simp only
+    refine ⟨i1, ?_, ?_⟩
+    · intro k'
+      rw [i2 k', r3 k']
+      by_cases hk : k' = k
+      · simp [hk]
+      · simp [hk]
+    · rw [i3, r2, List.filter_cons]
+      have hsame : ks.filter (fun x => (sabs H (c.failReset H k 4).1.data x).isSome) =
+          ks.filter (fun x => (sabs H c.data x).isSome) := by
+        apply List.filter_congr
+        intro x hx
+        rw [r3 x, if_neg (by intro h; rw [h] at hx; exact hnd.1 hx)]
+      rw [hsame]
+      cases (sabs H c.data k).isSome <;> simp <;> omega
+
+/-- **`Lookup`**: the exact state while active, else the closest active ancestor-zone state. -/
+theorem failLookupZ_spec {H : Hashes} (hH : HashOk H) (now qk : Nat) (zs : List Nat) {c : Cache (Nat × Nat)}
+    (inv : SegInv H c.data) :
+    c.failLookupZ H now qk zs =
+      (let act := fun k => match sabs H c.data k with
+        | some e => if now < e.2 then some e else none
+        | none => none
+       match act qk with
+       | some e => some e
+       | none => zs.findSome? act) := by
+  unfold Cache.failLookupZ
+  rw [failLookup_spec hH now qk inv]
+  have : (fun z => c.failLookup H now z) = fun k => match sabs H c.data k with
+        | some e => if now < e.2 then some e else none
+        | none => none := by
+    funext z; exact failLookup_spec hH now z inv
+  rw [this]
+  rfl
+
 /-! ### the real mixers are admissible instances -/
 
 theorem realIdx_ok : IdxOk realIdx := fun n _ hn => Nat.mod_lt _ hn
